@@ -484,6 +484,7 @@ class Module:
         self.class_consts = {}    # class -> {name: sym}
         self.inline_methods = inline_methods
         self.no_inline = set()    # function names never followed
+        self.records = {}         # immutable record classes: name -> (field names, is a tuple)
         for st in self.tree.body:
             self._module_stmt(st)
         for st in self.tree.body:
@@ -495,6 +496,16 @@ class Module:
             self.env[st.name] = self._reg(st, None)
         elif isinstance(st, ast.ClassDef):
             self.env[st.name] = ('class', st.name)
+            bases = [ast.unparse(b).split('.')[-1] for b in st.bases]
+            frozen = any(isinstance(d, ast.Call) and ast.unparse(d.func).split('.')[-1] == 'dataclass'
+                         and any(k.arg == 'frozen' and isinstance(k.value, ast.Constant) and k.value.value is True for k in d.keywords)
+                         for d in st.decorator_list)
+            if 'NamedTuple' in bases or frozen:
+                # immutable records: <Class>(a, b).field is the constructor argument
+                fields = [x.target.id for x in st.body if isinstance(x, ast.AnnAssign) and isinstance(x.target, ast.Name)]
+                if not any(isinstance(x, ast.FunctionDef) and x.name in ('__init__', '__new__', '__post_init__', '__getattr__', '__getattribute__')
+                           for x in st.body):
+                    self.records[st.name] = (fields, 'NamedTuple' in bases)
         elif isinstance(st, ast.Assign) and len(st.targets) == 1 and isinstance(st.targets[0], ast.Name):
             try:
                 known = {k: v[1] for k, v in self.env.items() if v[0] == 'const'}
@@ -1129,7 +1140,28 @@ class Exec:
         return sts
 
     # ------------------------------------------------------------------------------------------ expressions
+    def record_field(self, b, name=None, index=None):
+        """argument that a constructor call of an immutable record class gave to a field (by name or, for tuples, by position)"""
+        if b[0] == 'call' and b[2][0] == 'class' and b[2][1] in self.mod.records and not any(a[0] == 'star' for a in b[3]) \
+                and not any(k == '**' for k, _ in b[4]):
+            fields, is_tuple = self.mod.records[b[2][1]]
+            if index is not None:
+                if not is_tuple or not (0 <= index < len(fields)):
+                    return None
+                name = fields[index]
+            if name in fields:
+                i = fields.index(name)
+                if i < len(b[3]):
+                    return b[3][i]
+                kw = dict(b[4])
+                if name in kw:
+                    return kw[name]
+        return None
+
     def mk_attr(self, b, name):
+        v = self.record_field(b, name=name)
+        if v is not None:
+            return v
         if b == ('self',) and self.cls is not None:
             ctor = self.mod.ctor.get(self.cls, {})
             if name in ctor:
@@ -1145,6 +1177,9 @@ class Exec:
         return ('attr', b, name)
 
     def mk_item(self, b, i):
+        v = self.record_field(b, index=i)
+        if v is not None:
+            return v
         if b[0] == 'tuple' and 0 <= i < len(b[1]) and not any(e[0] == 'star' for e in b[1]):
             return b[1][i]
         if b[0] == 'list' and 0 <= i < len(b[2]) and not any(e[0] == 'star' for e in b[2]):
